@@ -294,6 +294,41 @@ def syntax_correspondence(run, cfg, n_random):
                                  {"first": dis[:5]}))
 
 
+def source_step(run, src_props, fields):
+    """Translate the marking sources (Gen/MarkingFacts.v) and build the source-tied obligations.
+    Must be called inside common.Lock().  Returns the facts read from the text, or None."""
+    import tr_markings
+    facts = None
+    try:
+        text, facts = tr_markings.translate(common.REPO, None)
+        common.write_if_changed(os.path.join(common.COQ, "Gen", "MarkingFacts.v"), text)
+    except tr_markings.TranslateError as e:
+        run.broken.append(Broken("translator", "tr_markings", {"error": str(e)}))
+    except (OSError, SyntaxError, ValueError, AttributeError, IndexError) as e:
+        run.broken.append(Broken("translator", "tr_markings", {"error": "%s: %s" % (type(e).__name__, e)}))
+    if facts is not None:
+        res = common.build_props(src_props)
+        run.add_build(res, "make -C coq Props/%s.vo and %s (coqc 8.16.1, full .vo) + Print Assumptions per theorem" % (
+            run.pid, src_props[:-2] + ".vo"))
+        run.coverage["source_text_variant"] = {f: facts[f] for f in fields}
+    else:
+        run.coverage["obligations"] += len(common.theorems_in(src_props))
+    return facts
+
+
+def compare_text_and_probe(run, facts, cfg, fields):
+    """The variant read from the source text and the one found by running the witnesses must agree."""
+    if facts is None:
+        return
+    diff = {f: {"text": facts[f], "behaviour": cfg.get(f)} for f in fields if f in cfg and facts[f] != cfg[f]}
+    if diff:
+        run.broken.append(Broken("correspondence", "the source text and the behaviour of the witnesses denote different variants",
+                                 {"differences": diff}))
+
+
+C08_FIELDS = ("falsy", "index", "embed", "nest", "syntax", "ind20")
+
+
 def full_cfg(cfg):
     c = {"inherit": "ByPrefix", "api": "AnyObjectMarking"}
     c.update(cfg)
@@ -313,7 +348,9 @@ def check(run):
     with common.Lock():
         res = common.build_props("Props/C08.v", extra_targets=("Model/MarkingsRun.vo",))
         run.add_build(res, "make -C coq Props/C08.vo (coqc 8.16.1, full .vo) + Print Assumptions per theorem")
+        facts = source_step(run, "Props/C08Src.v", C08_FIELDS)
     cfg8, obs = probe_variants(run)
+    compare_text_and_probe(run, facts, cfg8, C08_FIELDS)
     cfg = full_cfg(cfg8)
     run.coverage["variant_selected"] = cfg8
     # the witnesses are failing inputs whenever a defective variant is selected
@@ -367,7 +404,8 @@ def check(run):
         run.broken.append(Broken("correspondence", "Model/Markings.v (variant %s) vs stix2.markings" % json.dumps(cfg8),
                                  {"first": dis[:5]}))
     run.coverage["trusted_base"] += [
-        "coq/Model/Markings.v is hand-written; tied to the source only by the correspondence run above",
+        "coq/Model/Markings.v is hand-written; tied to the source by the correspondence run above and, for the variant "
+        "sites and the control-flow skeleton of every function of stix2/markings, by translators/tr_markings.py (fail closed)",
         "harness/impl/c07_impl.py dump(): the value tree of a constructed object (dict vs other Mapping vs list) as seen by plain recursion",
         "harness/props/marking_gen.py all_paths(): the independent path semantics the oracle uses",
     ]
